@@ -399,7 +399,7 @@ pub fn run(args: &Args) -> i32 {
         }
     });
     ctx.stats.merge(s);
-    eprintln!("  [C11] writer side done at {:.1}s ({} executions)", ctx.elapsed(), witems.len());
+    crate::diag!("  [C11] writer side done at {:.1}s ({} executions)", ctx.elapsed(), witems.len());
 
     // reader
     let mut ritems: Vec<(usize, u8, Vec<(u64, Dev)>)> = vec![];
@@ -445,7 +445,7 @@ pub fn run(args: &Args) -> i32 {
         }
     });
     ctx.stats.merge(s);
-    eprintln!("  [C11] reader side done at {:.1}s ({} executions)", ctx.elapsed(), ritems.len());
+    crate::diag!("  [C11] reader side done at {:.1}s ({} executions)", ctx.elapsed(), ritems.len());
 
     let reached = ctx.stats.evals - ctx.stats.classes.get("fault-not-reached").copied().unwrap_or(0);
     ctx.distinct_counted = reached;
